@@ -1,16 +1,33 @@
 """C17 table extractor: /repo/epgpy/stats.py -> /verif/coq/Gen/StatsTables.v
 
-Extracted (with Python `ast`, on every check):
-  * every `einsum("<subscripts>", operands...)` call of crlb / crlb_split / confint, in source order, matched
-    against a FIXED MENU of (subscripts, operand pattern) -> Gallina primitive of Model/Stats.v; an unknown
-    subscript string or operand form fails the translator (fail closed);
-  * the structure of the Hessian branch of confint (which einsum is assigned, which is accumulated, with
-    which sign) -> the two "finding switches" confint_hess_outer / confint_hess_plus of the model;
-  * the scalar glue around the einsums that the model fixes by hand (checked textually: `1 / sigma2 *`,
-    `* 1 / sigma2`, `W * lb`, `HJ.real`, `.real`, sse/dof, the log10 branch);
-  * the TSTAT_INTERVAL literals, as exact binary64 rationals (the value the running program uses).
+On every check the functions crlb / crlb_split / confint of the source are NORMALISED to a value tree and compared
+with the normal form of REFERENCE texts kept in this file (the texts Model/Stats.v is written for; four variants of
+the Hessian branch of confint, which select the two "finding switches" confint_hess_outer / confint_hess_plus).
+The einsum menu lists written to Gen are those of the matched reference.  Anything that does not normalise, or whose
+normal form differs from every reference, fails the translator (fail closed) with the first differing sub-term.
+
+Normal form (a small symbolic executor over the Python ast, `Norm`):
+  * every local is replaced by the expression it was bound to (forward substitution), so local names do not matter;
+    parameters, globals and attribute / call / operator structure (incl. operand grouping) are kept as written;
+  * `x op= e` is inplace(op, x, e), `x[k] = e` is setitem(x, k, e) -- NOT identified with their out-of-place forms;
+  * `if` statements are executed path by path (the continuation is run in both branches); conditional expressions
+    and conditional statements both become ite(cond, a, b); `not c`, `a is not b` are a flipped ite.  Two functions are
+    compared through their truth tables over the (identical) sets of atomic conditions, so hoisting a statement that
+    is common to both branches, or turning a rebinding if/else into a conditional expression, does not matter;
+  * a call of a module-level straight-line helper function of stats.py is inlined (positional arguments, bound by value).
+Guards that keep this sound (each raises Unsupported):
+  * dead code: the value computed by every executed statement must occur in the value returned on that path (so a
+    computation cannot be hoisted to paths where it was not executed, nor a side-effecting statement added);
+  * aliasing: `a = b` with b a bare local or parameter is refused; after an in-place change of an object every other
+    local that may share memory with it (same root through attribute / subscript / non-allocating calls) is
+    poisoned and may not be read; a helper may not change its parameters in place;
+  * statement and expression forms outside the small fragment used by stats.py (loops, with, lambda, comprehension,
+    starred / keyword-only calls of helpers, bare expression statements other than a docstring, ...).
+Not distinguished (accepted as equal): the order of evaluation of sub-expressions across statements (it can only
+change WHICH exception an invalid input raises first).
+TSTAT_INTERVAL literals are emitted as exact binary64 rationals (the value the running program uses).
 """
-import ast, os
+import ast, os, itertools
 from fractions import Fraction
 
 try:
@@ -19,138 +36,466 @@ except Exception:  # stand-alone use
     class Unsupported(Exception):
         pass
 
-# (subscripts, operand source patterns) -> primitive constructor
-MENU = {
-    ("...np,...nq->...pq", ("{X}.conj()", "{X}")): "EGram",            # J^H J
-    ("...npx,...nq->...qpx", ("H.conj()", "J")): "EHJ",                # (dJ_x^H J)[p,q] stored at [q,p,x]
-    ("...pq,...qrx,...rp->...x", ("W * lb", "HJ.real", "lb")): "EGrad",  # tr(W lb dI_x lb)
-    ("...nqp,...y->...pq", ("hess.conj()", "res")): "EHessOuter",      # (sum_n conj H_nqp) * (sum_y res_y)
-    ("...nqp,...n->...pq", ("hess.conj()", "res")): "EHessContract",   # sum_n conj H_nqp * res_n
-    ("...np,...pq,...nq->...n", ("jac.conj()", "cov", "jac")): "EPredVar",
-}
-
-EXPECT = {
-    "crlb": ["EGram", "EHJ", "EGrad"],
-    "crlb_split": ["EGram"],
-}
-
-
-def _src(n):
-    return ast.unparse(n)
-
-
-def einsums(fn):
-    out = []
-    for n in ast.walk(fn):
-        if isinstance(n, ast.Call) and isinstance(n.func, ast.Attribute) and n.func.attr == "einsum":
-            out.append(n)
-    out.sort(key=lambda n: (n.lineno, n.col_offset))
-    return out
-
-
-def classify(call, where):
-    if not call.args or not isinstance(call.args[0], ast.Constant) or not isinstance(call.args[0].value, str):
-        raise Unsupported("stats.%s: einsum without literal subscripts" % where)
-    subs = call.args[0].value
-    ops = tuple(_src(a) for a in call.args[1:])
-    if call.keywords:
-        raise Unsupported("stats.%s: einsum with keywords" % where)
-    for (msubs, mops), prim in MENU.items():
-        if msubs != subs or len(mops) != len(ops):
-            continue
-        if "{X}" in mops[0]:
-            x = ops[1]
-            if tuple(m.replace("{X}", x) for m in mops) == ops and x in ("J", "jac"):
-                return prim
-        elif mops == ops:
-            return prim
-    raise Unsupported("stats.%s line %d: einsum(%r, %s) is not in the menu of modelled contractions"
-                      % (where, call.lineno, subs, ", ".join(ops)))
-
 
 def need(cond, msg):
     if not cond:
-        raise Unsupported("stats.py glue changed: " + msg)
+        raise Unsupported("stats.py: " + msg)
 
 
-def confint_structure(fn):
-    """-> (prims in order, outer?, plus?) from the `if hess is not None:` branch"""
-    branch = None
-    for n in fn.body:
-        if isinstance(n, ast.If) and _src(n.test) == "hess is not None":
-            branch = n
-    need(branch is not None, "confint: `if hess is not None` not found")
-    terms = []  # (kind, sign)
-    for st in branch.body:
-        if isinstance(st, ast.Assign) and _src(st.targets[0]) == "Hmle":
-            v, sign = st.value, "+"
-        elif isinstance(st, ast.AugAssign) and _src(st.target) == "Hmle" and isinstance(st.op, (ast.Add, ast.Sub)):
-            v, sign = st.value, "+" if isinstance(st.op, ast.Add) else "-"
-            need(terms, "confint: Hmle accumulated before being assigned")
-        elif isinstance(st, ast.Assign) and _src(st) == "cov = np.linalg.inv(Hmle)":
-            continue
+# ---------------------------------------------------------------- normaliser
+# calls that always allocate their result (never a view of an argument)
+# module-level functions that are NOT inlined: the call stays an uninterpreted node in both normal forms, the table
+# look-up itself is tied by the correspondence (exact comparison of the returned t value with the generated table)
+OPAQUE = {"get_tstat_interval"}
+FRESH_CALLS = {"einsum", "inv", "cond", "trace", "sum", "log10", "log", "sqrt", "arange"}
+NONE = ("const", "None")
+
+
+class Frame:
+    def __init__(self, params, helper, locals_=()):
+        self.locals = set(locals_)   # every name bound somewhere in the function
+        self.env = {}            # local -> value tree
+        self.poison = {}         # local -> reason
+        self.unbound_params = set(params)   # parameters not rebound so far
+        self.helper = helper
+
+    def copy(self):
+        f = Frame((), self.helper, self.locals)
+        f.env, f.poison, f.unbound_params = dict(self.env), dict(self.poison), set(self.unbound_params)
+        return f
+
+
+def roots(t):
+    """the objects a value may share memory with (walk through everything that is not known to allocate)"""
+    k = t[0]
+    if k == "const":
+        return set()
+    if k == "name":
+        return {t}
+    if k in ("bin", "un", "cmp", "bool"):
+        return {t}
+    if k in ("attr", "sub", "unpack"):
+        return roots(t[1])
+    if k in ("inplace",):
+        return roots(t[2])
+    if k == "setitem":
+        return roots(t[1])
+    if k == "ite":
+        return roots(t[2]) | roots(t[3])
+    if k == "tuple":
+        r = set()
+        for x in t[1:]:
+            r |= roots(x)
+        return r
+    if k == "slice":
+        return set()
+    if k == "call":
+        f = t[1]
+        if f[0] == "attr" and f[2] in FRESH_CALLS:
+            return {t}
+        r = roots(f[1]) if f[0] == "attr" else set()
+        for a in t[2]:
+            r |= roots(a)
+        for _, a in t[3]:
+            r |= roots(a)
+        return r
+    raise Unsupported("stats.py: internal: roots of %r" % (k,))
+
+
+def contains(t, s):
+    if t == s:
+        return True
+    return isinstance(t, tuple) and any(contains(x, s) for x in t if isinstance(x, tuple))
+
+
+def mk_ite(atom, pol, a, b):
+    if not pol:
+        a, b = b, a
+    return a if a == b else ("ite", atom, a, b)
+
+
+def atoms_of(t, acc):
+    if isinstance(t, tuple):
+        if t and t[0] == "ite":
+            acc.add(t[1])
+        for x in t:
+            atoms_of(x, acc)
+    return acc
+
+
+def specialise(t, assign):
+    if not isinstance(t, tuple):
+        return t
+    if t and t[0] == "ite":
+        return specialise(t[2] if assign[t[1]] else t[3], assign)
+    return tuple(specialise(x, assign) for x in t)
+
+
+def show(t, depth=3):
+    if not isinstance(t, tuple):
+        return repr(t)
+    k = t[0] if t else ""
+    if k == "name":
+        return t[1]
+    if k == "const":
+        return t[1]
+    if depth == 0:
+        return "..."
+    d = depth - 1
+    if k == "attr":
+        return "%s.%s" % (show(t[1], d), t[2])
+    if k == "call":
+        return "%s(%s)" % (show(t[1], d), ", ".join([show(a, d) for a in t[2]] + ["%s=%s" % (n, show(a, d)) for n, a in t[3]]))
+    if k == "bin":
+        return "(%s %s %s)" % (show(t[2], d), t[1], show(t[3], d))
+    if k == "un":
+        return "(%s %s)" % (t[1], show(t[2], d))
+    if k == "sub":
+        return "%s[%s]" % (show(t[1], d), show(t[2], d))
+    if k == "inplace":
+        return "(%s %s= %s)" % (show(t[2], d), t[1], show(t[3], d))
+    if k == "setitem":
+        return "setitem(%s, %s, %s)" % (show(t[1], d), show(t[2], d), show(t[3], d))
+    if k == "ite":
+        return "(%s if %s else %s)" % (show(t[2], d), show(t[1], d), show(t[3], d))
+    return "%s(%s)" % (k, ", ".join(show(x, d) for x in t[1:]))
+
+
+def first_diff(a, b):
+    """smallest differing pair of sub-terms"""
+    if a == b:
+        return None
+    if isinstance(a, tuple) and isinstance(b, tuple) and len(a) == len(b) and a and b and a[0] == b[0]:
+        diffs = [(x, y) for x, y in zip(a, b) if x != y]
+        if len(diffs) == 1 and isinstance(diffs[0][0], tuple) and isinstance(diffs[0][1], tuple):
+            return first_diff(*diffs[0])
+    return a, b
+
+
+class Norm:
+    def __init__(self, tree, what):
+        self.what = what
+        self.fns = {n.name: n for n in tree.body if isinstance(n, ast.FunctionDef)}
+        self.records = []      # (path condition, value) of every executed statement
+
+    def bad(self, node, msg):
+        raise Unsupported("stats.py (%s) line %s: %s" % (self.what, getattr(node, "lineno", "?"), msg))
+
+    # ---- expressions
+    def lookup(self, name, frames, node):
+        fr = frames[-1]
+        if name in fr.env:
+            if name in fr.poison:
+                self.bad(node, "`%s` is read after an in-place change of an object it may share memory with (%s)" % (name, fr.poison[name]))
+            return fr.env[name]
+        if name in fr.locals:
+            self.bad(node, "local `%s` may be read before it is bound" % name)
+        return ("name", name)
+
+    def ev(self, e, frames):
+        ev = lambda x: self.ev(x, frames)
+        if isinstance(e, ast.Name):
+            return self.lookup(e.id, frames, e)
+        if isinstance(e, ast.Constant):
+            return ("const", repr(e.value))
+        if isinstance(e, ast.Attribute):
+            return ("attr", ev(e.value), e.attr)
+        if isinstance(e, ast.Subscript):
+            return ("sub", ev(e.value), ev(e.slice))
+        if isinstance(e, ast.Slice):
+            return ("slice",) + tuple(NONE if x is None else ev(x) for x in (e.lower, e.upper, e.step))
+        if isinstance(e, ast.Tuple):
+            return ("tuple",) + tuple(ev(x) for x in e.elts)
+        if isinstance(e, ast.BinOp):
+            return ("bin", type(e.op).__name__, ev(e.left), ev(e.right))
+        if isinstance(e, ast.UnaryOp):
+            if isinstance(e.op, ast.Not):
+                a, pol = self.cond(e, frames)
+                return mk_ite(a, pol, ("const", "True"), ("const", "False"))
+            return ("un", type(e.op).__name__, ev(e.operand))
+        if isinstance(e, ast.Compare):
+            a, pol = self.cond(e, frames)
+            return a if pol else mk_ite(a, pol, ("const", "True"), ("const", "False"))
+        if isinstance(e, ast.BoolOp):
+            return ("bool", type(e.op).__name__) + tuple(ev(x) for x in e.values)
+        if isinstance(e, ast.IfExp):
+            a, pol = self.cond(e.test, frames)
+            return mk_ite(a, pol, ev(e.body), ev(e.orelse))
+        if isinstance(e, ast.Call):
+            if any(isinstance(a, ast.Starred) for a in e.args) or any(k.arg is None for k in e.keywords):
+                self.bad(e, "starred call")
+            if isinstance(e.func, ast.Name) and e.func.id in self.fns and e.func.id not in frames[-1].env \
+                    and e.func.id not in OPAQUE:
+                return self.inline(e, frames)
+            return ("call", ev(e.func), tuple(ev(a) for a in e.args),
+                    tuple(sorted((k.arg, ev(k.value)) for k in e.keywords)))
+        self.bad(e, "expression form %s is not modelled" % type(e).__name__)
+
+    def cond(self, e, frames):
+        """-> (atom, polarity)"""
+        if isinstance(e, ast.UnaryOp) and isinstance(e.op, ast.Not):
+            a, pol = self.cond(e.operand, frames)
+            return a, not pol
+        if isinstance(e, ast.Compare):
+            if len(e.ops) != 1:
+                self.bad(e, "chained comparison")
+            op = type(e.ops[0]).__name__
+            l, r = self.ev(e.left, frames), self.ev(e.comparators[0], frames)
+            flip = {"IsNot": "Is", "NotIn": "In", "NotEq": None}.get(op)
+            if flip:
+                return ("cmp", flip, l, r), False
+            return ("cmp", op, l, r), True
+        v = self.ev(e, frames)
+        if v[0] == "ite" and v[2] == ("const", "True") and v[3] == ("const", "False"):
+            return v[1], True
+        return v, True
+
+    def inline(self, call, frames):
+        fn = self.fns[call.func.id]
+        a = fn.args
+        if call.keywords or a.vararg or a.kwarg or a.kwonlyargs or a.posonlyargs or a.defaults or len(call.args) != len(a.args):
+            self.bad(call, "call of helper %s: only plain positional arguments are inlined" % fn.name)
+        if len([f for f in frames if f.helper == fn.name]) or len(frames) > 4:
+            self.bad(call, "recursive helper %s" % fn.name)
+        vals = [self.ev(x, frames) for x in call.args]
+        fr = Frame([p.arg for p in a.args], fn.name, assigned_names(fn) | {p.arg for p in a.args})
+        fr.env = dict(zip([p.arg for p in a.args], vals))
+        body = strip_doc(fn.body)
+        if any(not isinstance(s, (ast.Assign, ast.AugAssign, ast.Return)) for s in body) or \
+                not body or not isinstance(body[-1], ast.Return) or any(isinstance(s, ast.Return) for s in body[:-1]):
+            self.bad(call, "helper %s is not straight-line code ending in one return" % fn.name)
+        frames.append(fr)
+        try:
+            for s in body[:-1]:
+                self.stmt(s, frames, self._pc)
+            r = NONE if body[-1].value is None else self.ev(body[-1].value, frames)
+        finally:
+            frames.pop()
+        return r
+
+    # ---- statements
+    def record(self, pc, v):
+        self.records.append((tuple(pc), v))
+
+    def mutate(self, name, newv, frames, node):
+        fr = frames[-1]
+        if name not in fr.env:
+            self.bad(node, "in-place change of `%s`, which is not a bound local" % name)
+        if fr.helper and name in fr.unbound_params:
+            self.bad(node, "helper %s changes its parameter `%s` in place" % (fr.helper, name))
+        old = self.lookup(name, frames, node)
+        r = roots(old)
+        for f in frames:
+            for y, vy in f.env.items():
+                if not (f is fr and y == name) and roots(vy) & r:
+                    f.poison[y] = "`%s` changed in place at line %s" % (name, node.lineno)
+        fr.env[name] = newv
+
+    def bind(self, name, v, frames, node, rhs=None):
+        fr = frames[-1]
+        if rhs is not None and isinstance(rhs, ast.Name) and (rhs.id in fr.env):
+            self.bad(node, "`%s = %s` makes two names of one object (aliasing is not modelled)" % (name, rhs.id))
+        fr.env[name] = v
+        fr.poison.pop(name, None)
+        fr.unbound_params.discard(name)
+
+    def stmt(self, st, frames, pc):
+        self._pc = pc
+        if isinstance(st, ast.Assign):
+            if len(st.targets) != 1:
+                self.bad(st, "chained assignment")
+            t = st.targets[0]
+            v = self.ev(st.value, frames)
+            self.record(pc, v)
+            if isinstance(t, ast.Name):
+                self.bind(t.id, v, frames, st, st.value)
+            elif isinstance(t, ast.Tuple) and all(isinstance(x, ast.Name) for x in t.elts):
+                for i, x in enumerate(t.elts):
+                    self.bind(x.id, ("unpack", v, i, len(t.elts)), frames, st)
+            elif isinstance(t, ast.Subscript) and isinstance(t.value, ast.Name):
+                k = self.ev(t.slice, frames)
+                old = self.lookup(t.value.id, frames, st)
+                nv = ("setitem", old, k, v)
+                self.mutate(t.value.id, nv, frames, st)
+                self.record(pc, nv)
+            else:
+                self.bad(st, "assignment target form")
+        elif isinstance(st, ast.AugAssign):
+            if not isinstance(st.target, ast.Name):
+                self.bad(st, "augmented assignment to a non-name")
+            old = self.lookup(st.target.id, frames, st)
+            nv = ("inplace", type(st.op).__name__, old, self.ev(st.value, frames))
+            self.mutate(st.target.id, nv, frames, st)
+            self.record(pc, nv)
         else:
-            raise Unsupported("stats.confint: statement %r in the Hessian branch is not modelled" % _src(st))
-        need(isinstance(v, ast.Attribute) and v.attr == "real" and isinstance(v.value, ast.Call),
-             "confint: Hmle term is not `einsum(...).real`")
-        terms.append((classify(v.value, "confint"), sign))
-    kinds = [k for k, _ in terms]
-    need(sorted(kinds) in (["EGram", "EHessOuter"], ["EGram", "EHessContract"]) and len(terms) == 2,
-         "confint: Hmle is not (gram, hessian term): %s" % kinds)
-    need(dict(terms)["EGram"] == "+", "confint: J^H J enters Hmle with a minus sign")
-    hk = [k for k in kinds if k != "EGram"][0]
-    need(_src(branch.orelse[0]) == "jac2 = np.einsum('...np,...nq->...pq', jac.conj(), jac).real"
-         and _src(branch.orelse[1]) == "cov = np.linalg.inv(jac2)" and len(branch.orelse) == 2,
-         "confint: no-Hessian branch")
-    return hk == "EHessOuter", dict(terms)[hk] == "+"
+            self.bad(st, "statement form %s is not modelled" % type(st).__name__)
+
+    def run(self, stmts, frames, pc):
+        """value returned by executing stmts (continuation duplicated at every `if`)"""
+        for i, st in enumerate(stmts):
+            if isinstance(st, ast.Return):
+                self._pc = pc
+                v = NONE if st.value is None else self.ev(st.value, frames)
+                self.record(pc, v)
+                self.leaves.append((tuple(pc), v))
+                return v
+            if isinstance(st, ast.If):
+                self._pc = pc
+                a, pol = self.cond(st.test, frames)
+                rest = stmts[i + 1:]
+                r1 = self.run(list(st.body) + rest, [f.copy() for f in frames], pc + [(a, pol)])
+                r2 = self.run(list(st.orelse) + rest, [f.copy() for f in frames], pc + [(a, not pol)])
+                return mk_ite(a, pol, r1, r2)
+            self.stmt(st, frames, pc)
+        self.leaves.append((tuple(pc), NONE))
+        return NONE
+
+    def function(self, name):
+        need(name in self.fns, "(%s) function %s not found" % (self.what, name))
+        fn = self.fns[name]
+        a = fn.args
+        if a.vararg or a.kwarg or a.posonlyargs:
+            self.bad(fn, "signature of %s" % name)
+        params = [p.arg for p in a.args + a.kwonlyargs]
+        fr = Frame(params, None, assigned_names(fn) | set(params))
+        fr.env = {p: ("name", p) for p in params}
+        self.records, self.leaves = [], []
+        sig = ("sig", tuple(params), tuple(ast.dump(d) for d in a.defaults), tuple("-" if d is None else ast.dump(d) for d in a.kw_defaults),
+               len(a.args))
+        ret = self.run(strip_doc(fn.body), [fr], [])
+        self.check_live(name, ret)
+        return sig, ret
+
+    def check_live(self, name, ret):
+        ats = sorted(atoms_of(ret, set()) | {a for pc, _ in self.records for a, _ in pc}, key=repr)
+        need(len(ats) <= 8, "(%s) %s: too many conditions" % (self.what, name))
+        for bits in itertools.product((True, False), repeat=len(ats)):
+            assign = dict(zip(ats, bits))
+            leaf = specialise(ret, assign)
+            for pc, v in self.records:
+                if all(assign[a] == pol for a, pol in pc):
+                    sv = specialise(v, assign)
+                    if sv[0] in ("const", "name"):
+                        continue
+                    need(contains(leaf, sv),
+                         "(%s) %s computes `%s` on a path where the returned value does not depend on it (dead or hoisted code)"
+                         % (self.what, name, show(sv)))
 
 
-GLUE = {
-    "crlb": [
-        "I = 1 / sigma2 * xp.einsum('...np,...nq->...pq', J.conj(), J).real",
-        "lb = xp.linalg.inv(I)",
-        "W = xp.asarray(W)[..., np.newaxis]",
-        "W = 1",
-        "cost = xp.trace(W * lb, axis1=-2, axis2=-1)",
-        "return cost if not log else np.log10(cost)",
-        "HJ = xp.einsum('...npx,...nq->...qpx', H.conj(), J) * 1 / sigma2",
-        "HJ += np.moveaxis(HJ, -3, -2).conj()",
-        "grad = -xp.einsum('...pq,...qrx,...rp->...x', W * lb, HJ.real, lb)",
-        "return (cost, grad)",
-        "return (np.log10(cost), grad / cost[..., np.newaxis] / np.log(10))",
-    ],
-    "crlb_split": [
-        "I = 1 / sigma2 * xp.einsum('...np,...nq->...pq', J.conj(), J).real",
-        "lb = xp.linalg.inv(I)",
-        "idiag = xp.arange(lb.shape[-1])",
-        "crb = lb[..., idiag, idiag]",
-        "crb *= xp.asarray(W)",
-        "crb = np.log10(crb)",
-        "return xp.moveaxis(crb, -1, 0)",
-    ],
-    "confint": [
-        "nobs, nparam = jac.shape[-2:]",
-        "dof = nobs - nparam",
-        "res = obs - pred",
-        "sse = np.sum(res * res.conj(), axis=-1).real",
-        "cov *= sse[..., np.newaxis, np.newaxis] / dof",
-        "tval = get_tstat_interval(conflevel, dof)",
-        "idiag = np.arange(nparam)",
-        "cints = tval * np.sqrt(cov[..., idiag, idiag])",
-        "predvar = np.einsum('...np,...pq,...nq->...n', jac.conj(), cov, jac).real",
-        "cband = tval * np.sqrt(predvar)",
-        "return (cints, cband)",
-    ],
-}
-
-
-def check_glue(fn):
-    have = set()
+def assigned_names(fn):
+    out = set()
     for n in ast.walk(fn):
-        if isinstance(n, ast.stmt):
-            have.add(_src(n))
-    for line in GLUE[fn.name]:
-        need(line in have, "%s: statement `%s` not found" % (fn.name, line))
+        if isinstance(n, ast.Name) and isinstance(n.ctx, ast.Store):
+            out.add(n.id)
+        elif isinstance(n, (ast.FunctionDef, ast.Lambda, ast.ClassDef, ast.Global, ast.Nonlocal, ast.ListComp, ast.SetComp,
+                            ast.DictComp, ast.GeneratorExp, ast.NamedExpr, ast.Import, ast.ImportFrom, ast.For, ast.While,
+                            ast.With, ast.Try, ast.Delete)) and n is not fn:
+            raise Unsupported("stats.py line %s: %s inside %s is not modelled" % (getattr(n, "lineno", "?"), type(n).__name__, fn.name))
+    return out
+
+
+def strip_doc(body):
+    if body and isinstance(body[0], ast.Expr) and isinstance(body[0].value, ast.Constant) and isinstance(body[0].value.value, str):
+        return list(body[1:])
+    return list(body)
+
+
+def same_function(src, ref, name):
+    """None when the two normal forms denote the same function, else a message"""
+    (ssig, sret), (rsig, rret) = src, ref
+    if ssig != rsig:
+        return "signature of %s differs from the modelled one" % name
+    sa, ra = sorted(atoms_of(sret, set()), key=repr), sorted(atoms_of(rret, set()), key=repr)
+    if sa != ra:
+        extra = [show(a) for a in sa if a not in ra] + [show(a) for a in ra if a not in sa]
+        return "%s branches on other conditions than the modelled code: %s" % (name, "; ".join(extra[:3]))
+    for bits in itertools.product((True, False), repeat=len(sa)):
+        assign = dict(zip(sa, bits))
+        a, b = specialise(sret, assign), specialise(rret, assign)
+        if a != b:
+            x, y = first_diff(a, b)
+            return "%s: source has `%s` where the modelled code has `%s`" % (name, show(x), show(y))
+    return None
+
+
+# ---------------------------------------------------------------- reference texts (what Model/Stats.v is written for)
+REF_CRLB = '''
+def crlb(J, H=None, *, W=None, sigma2=1, log=False):
+    xp = common.get_array_module(J)
+    J = xp.asarray(J)
+    I = 1 / sigma2 * xp.einsum("...np,...nq->...pq", J.conj(), J).real
+    is_singular = np.linalg.cond(I) > 1e30
+    I[is_singular] = np.nan
+    lb = xp.linalg.inv(I)
+    if W is not None:
+        W = xp.asarray(W)[..., np.newaxis]
+    else:
+        W = 1
+    cost = xp.trace(W * lb, axis1=-2, axis2=-1)
+    if H is None:
+        return cost if not log else np.log10(cost)
+    HJ = xp.einsum("...npx,...nq->...qpx", H.conj(), J) * 1 / sigma2
+    HJ += np.moveaxis(HJ, -3, -2).conj()
+    grad = -xp.einsum("...pq,...qrx,...rp->...x", W * lb, HJ.real, lb)
+    if not log:
+        return cost, grad
+    return np.log10(cost), grad / cost[..., np.newaxis] / np.log(10)
+
+
+def crlb_split(J, W=None, sigma2=1, log=False):
+    xp = common.get_array_module(J)
+    J = xp.asarray(J)
+    I = 1 / sigma2 * xp.einsum("...np,...nq->...pq", J.conj(), J).real
+    is_singular = np.linalg.cond(I) > 1e30
+    I[is_singular] = np.nan
+    lb = xp.linalg.inv(I)
+    idiag = xp.arange(lb.shape[-1])
+    crb = lb[..., idiag, idiag]
+    if W is not None:
+        crb *= xp.asarray(W)
+    if log:
+        crb = np.log10(crb)
+    return xp.moveaxis(crb, -1, 0)
+'''
+
+REF_CONFINT = '''
+def confint(obs, pred, jac, hess=None, *, conflevel=0.95):
+    nobs, nparam = jac.shape[-2:]
+    dof = nobs - nparam
+    res = obs - pred
+    sse = np.sum(res * res.conj(), axis=-1).real
+    if hess is not None:
+        Hmle = %(first)s
+        Hmle %(op)s= %(second)s
+        cov = np.linalg.inv(Hmle)
+    else:
+        jac2 = np.einsum("...np,...nq->...pq", jac.conj(), jac).real
+        cov = np.linalg.inv(jac2)
+    cov *= sse[..., np.newaxis, np.newaxis] / dof
+    tval = get_tstat_interval(conflevel, dof)
+    idiag = np.arange(nparam)
+    cints = tval * np.sqrt(cov[..., idiag, idiag])
+    predvar = np.einsum("...np,...pq,...nq->...n", jac.conj(), cov, jac).real
+    cband = tval * np.sqrt(predvar)
+    return cints, cband
+'''
+_GRAM = 'np.einsum("...np,...nq->...pq", jac.conj(), jac).real'
+_HESS = {True: 'np.einsum("...nqp,...y->...pq", hess.conj(), res).real',     # EHessOuter
+         False: 'np.einsum("...nqp,...n->...pq", hess.conj(), res).real'}    # EHessContract
+
+# contractions of the reference texts, in the order of Model/Stats.v (crlb_menu, crlb_split_menu, confint_menu)
+CRLB_PRIMS = ["EGram", "EHJ", "EGrad"]
+SPLIT_PRIMS = ["EGram"]
+
+
+def confint_variants():
+    """(outer, plus) -> (reference text, einsum list); the plus variants accumulate J^H J onto the Hessian term"""
+    out = {}
+    for outer in (True, False):
+        h = "EHessOuter" if outer else "EHessContract"
+        out[(outer, True)] = (REF_CONFINT % {"first": _HESS[outer], "op": "+", "second": _GRAM}, [h, "EGram", "EGram", "EPredVar"])
+        out[(outer, False)] = (REF_CONFINT % {"first": _GRAM, "op": "-", "second": _HESS[outer]}, ["EGram", h, "EGram", "EPredVar"])
+    return out
 
 
 def qlit(x):
@@ -167,23 +512,29 @@ def level_lit(x):
 def extract(repo):
     path = os.path.join(repo, "epgpy", "stats.py")
     tree = ast.parse(open(path).read())
-    fns = {n.name: n for n in tree.body if isinstance(n, ast.FunctionDef)}
-    for f in ("crlb", "crlb_split", "confint", "get_tstat_interval"):
-        need(f in fns, "function %s not found" % f)
+    src = Norm(tree, "source")
+    need("get_tstat_interval" in src.fns, "function get_tstat_interval not found")
+    ref = Norm(ast.parse(REF_CRLB), "reference")
     prims = {}
-    for f in ("crlb", "crlb_split"):
-        prims[f] = [classify(c, f) for c in einsums(fns[f])]
-        if prims[f] != EXPECT[f]:
-            raise Unsupported("stats.%s uses contractions %s, the model is written for %s" % (f, prims[f], EXPECT[f]))
-        check_glue(fns[f])
-    prims["confint"] = [classify(c, "confint") for c in einsums(fns["confint"])]
-    outer, plus = confint_structure(fns["confint"])
-    need(prims["confint"][-1] == "EPredVar" and prims["confint"].count("EGram") == 2 and len(prims["confint"]) == 4,
-         "confint contractions %s" % prims["confint"])
-    check_glue(fns["confint"])
+    for f, pl in (("crlb", CRLB_PRIMS), ("crlb_split", SPLIT_PRIMS)):
+        why = same_function(src.function(f), ref.function(f), f)
+        if why:
+            raise Unsupported("stats.%s is not the modelled computation: %s" % (f, why))
+        prims[f] = list(pl)
+    sconf = src.function("confint")
+    whys, hit = [], None
+    for (outer, plus), (text, pl) in sorted(confint_variants().items()):
+        why = same_function(sconf, Norm(ast.parse(text), "reference").function("confint"), "confint")
+        if why is None:
+            hit = (outer, plus, pl)
+            break
+        whys.append(why)
+    if hit is None:
+        raise Unsupported("stats.confint is not one of the modelled computations: " + min(whys, key=len))
+    outer, plus, prims["confint"] = hit[0], hit[1], list(hit[2])
     table = None
     for n in tree.body:
-        if isinstance(n, ast.Assign) and _src(n.targets[0]) == "TSTAT_INTERVAL":
+        if isinstance(n, ast.Assign) and ast.unparse(n.targets[0]) == "TSTAT_INTERVAL":
             table = ast.literal_eval(n.value)
     need(isinstance(table, dict) and table, "TSTAT_INTERVAL literal dict not found")
     entries = []
@@ -221,6 +572,5 @@ def generate(REPO, GEN, write_if_changed):
 
 
 if __name__ == "__main__":
-    import sys
     p, o, s, e = extract(os.environ.get("EPGPY_REPO", "/repo"))
     print(p, o, s, len(e))
